@@ -277,7 +277,7 @@ pub fn op(p: &Profile, depth: u32, in_cb: bool, d: &mut Dec) -> Op {
             _ => Op::AsyncGive { a: d.u16(), tok: d.u16() },
         },
         8 => Op::InsertBad { which: d.u8r(0, 2), mode: d.u8r(0, 2), give: d.pct(40) },
-        9 => match d.pickw(&[5, 4, 1, 4, 1]) {
+        9 => match d.pickw(&[5, 4, 1, 4, 1, 2]) {
             0 => {
                 let src = d.u16();
                 let pendings = d.u8r(0, 2);
@@ -294,7 +294,8 @@ pub fn op(p: &Profile, depth: u32, in_cb: bool, d: &mut Dec) -> Op {
             1 => Op::Wake { task: d.u16() },
             2 => Op::DropScheduler { src: d.u16() },
             3 => Op::StreamPush { src: d.u16(), val: d.u8() },
-            _ => Op::StreamEnd { src: d.u16() },
+            4 => Op::StreamEnd { src: d.u16() },
+            _ => Op::StreamYield { src: d.u16() },
         },
         10 => {
             if d.pickw(&[3, 1]) == 0 {
